@@ -195,7 +195,7 @@ func buildPools(wd *World) *pools {
 
 	p.amounts = []string{"1", "0.5", "0.00000001", "10", "0.0001", "2048", "3.14159265", "100", "0.01", "25"}
 	p.amountsBad = []string{"", "0", "0.0", ".", "1.", ".5", "206438400", "206438400.00000001", "206438401", "92233720368", "99999999999999999999", "1.123456789",
-		"-1", "+1", "1e5", "abc", " 1", "1 ", "1.0.0", "0x10", "١", rep("9", 10000), "0." + rep("0", 10000) + "1", "1,5"}
+		"-1", "+1", "1e5", "abc", " 1", "1 ", "1.0.0", "0x10", "١", rep("9", 400), "0." + rep("0", 400) + "1", "1,5"}
 
 	// transactions
 	var own, foreign, pending *coin
@@ -340,9 +340,7 @@ func (p *pools) num(r *rng.R, name string, bits int, signed bool, wd *World) int
 	case "bitsize":
 		return u(128, 128, 160, 192, 224, 256, 0, -1, 129, 96, 512, math.MaxInt32, math.MinInt32)
 	case "externalindex", "internalindex":
-		if r.Chance(4) {
-			return u(math.MaxUint32, math.MaxUint32-20, 1<<31, 3000000)
-		}
+		// large hints make the import work for seconds to days (known finding, measured by scenario "hints")
 		return u(0, 0, 1, 2, 19, 20, 21, 40, 300)
 	case "vout":
 		return u(0, 1, 2, 3, 1<<31, math.MaxUint32)
